@@ -80,6 +80,10 @@ def strategy(tier):
                                                         'call']),
                                'data': S.payload_st(max_leaves=3),
                                'cb': st.booleans()}),
+        st.fixed_dictionaries({'op': st.just('emit'), 'ns': nsi,
+                               'kind': st.sampled_from(['emit', 'send']),
+                               'data': st.just('d'), 'cb': st.just(True)}),
+        st.fixed_dictionaries({'op': st.just('sdisc_all')}),
         st.fixed_dictionaries({'op': st.just('disconnect')}),
         st.fixed_dictionaries({'op': st.just('lose')}),
         st.fixed_dictionaries({'op': st.just('close')}),
@@ -445,6 +449,21 @@ def _run(case, h):
                 continue
             nlog = len(log)
             was = sorted(model['accepted'])
+            if k == 'sdisc_all':
+                # the server ends every connected namespace, one by one
+                if model['partial'] or not model['accepted']:
+                    continue
+                for ns in list(model['accepted']):
+                    n1 = len(log)
+                    for f in wire.frames(wire.DISCONNECT, ns):
+                        h.deliver(f)
+                    model['accepted'].pop(ns, None)
+                    expect_disconnects(n1, [ns], 'server DISCONNECT %s' % ns)
+                    check_state('after server DISCONNECT %s' % ns)
+                end_model()
+                faulted[0] = True
+                check_ended('after the server ended every namespace')
+                continue
             if k == 'sdisc':
                 if model['partial']:
                     continue    # a server never interleaves text frames
